@@ -5,7 +5,8 @@ CONSTANTS
   Vals = {1, 2}
   Limits = {1, 2}
   Depth = 0
-INVARIANT AnswersLikePlainMap
+PROPERTY AnswersAlways
+VIEW StateView
 INVARIANT HoldsExactlyPlain
 INVARIANT MemOK
 CHECK_DEADLOCK FALSE
